@@ -6,9 +6,11 @@ from props import C01, rwcommon as rc
 
 ID = "C08"
 PROP_FILE = "props/C08.v"
-COQ_TARGETS = ["props/C08.v"]
-THEOREMS = ["C08_make_ret", "C08_erase_sound"]
-TRUSTED_BASE = C01.TRUSTED_BASE + ["translator gen_emitret.py: _make_ret regenerated from emit_event.py on every run"]
+COQ_TARGETS = ["props/C08.v", "model/FragOv.v"]
+THEOREMS = ["C08_make_ret", "C08_erase_sound", "C08_frag_overrides"]
+TRUSTED_BASE = C01.TRUSTED_BASE + ["translator gen_emitret.py: _make_ret regenerated from emit_event.py on every run",
+                                   "model/FragOv.v (handlers that override values / replace deferred computations; evaluator and override reference), tied by K-ov "
+                                   "(tools/impl/c08_sem.py: real runs whose handler overrides by table (event, node) -> value | Null; the override reference is the oracle)"]
 ASSUMPTIONS = ["deferred expressions contain no assignment-expression, yield, await, zero-argument super, locals()/frame access or class-body-local name "
                "(the generator never produces them inside deferred positions); comparison chains: see the recorded finding"]
 
@@ -96,7 +98,37 @@ def run(ctx, model_ok):
     r["distribution"]["override_templates"] = len(oc)
     r["distribution"]["override_templates_ok"] = n_ok
     r["rule"] += "; C08: event subsets are drawn from the 15 deferred events only; plus 15 templates x {thunk, functools.partial, plain value, Null, nothing} override kinds"
+    # overrides on the fragment: model/FragOv.v against real runs whose handlers override by table (K-ov); the override reference is the oracle
+    if model_ok:
+        from props import fragov
+        ok3, out3 = lib.coq_make(["model/FragOv.vo"])
+        if not ok3:
+            ctx.tie_broken("correspondence", "model/FragOv.v does not build", out3)
+        else:
+            extra_o = [dict(x) for x in getattr(ctx, "known_replays", []) + getattr(ctx, "fixed_replays", []) if "overrides" in x]
+            no, oko, disto, viol = fragov.check(ctx, ctx.rng, 60 if ctx.tier == "quick" else 800, extra_cases=extra_o)
+            for f in viol[:2]:
+                f.update({"signature": "unlisted", "kind_": "oracle", "harness": "c08_sem.py"})
+                r["failures"].append(f)
+            r["evaluations"] += no
+            r["traces_validated"] = r.get("traces_validated", 0) + oko
+            r["distribution"]["k_ov_programs"] = no
+            r["distribution"]["k_ov_agreeing"] = oko
+            r["distribution"]["k_ov_detail"] = disto
+            r["rule"] += ("; K-ov: 60 generated fragment programs x event subsets (incl. the three deferred events of the fragment) x 1-4 overrides chosen among the "
+                          "(event, node) pairs that occur, values ints / bools / Null: exception, bindings and stream vs model/FragOv.v and vs the override reference")
     return r
+
+
+def replay_ov(case):
+    from props import fragov
+    import random
+
+    class _Quiet:
+        def tie_broken(self, *a, **k):
+            pass
+    _, _, _, viol = fragov.check(_Quiet(), random.Random(0), 0, extra_cases=[case])
+    return viol[0] if viol else None
 
 
 def replay(ctx, rep):
@@ -106,4 +138,6 @@ def replay(ctx, rep):
         return None
     if "expect_u" in case:
         return oracle_override(case, C01.run_impl([case])[0])
+    if "overrides" in case:
+        return replay_ov(case)
     return C01.fails_on_impl(case)
